@@ -1954,7 +1954,7 @@ func TestVerifC08(t *testing.T) {
 	tier := os.Getenv("VERIF_TIER")
 	ncases, workers := 100, 6
 	if tier == "thorough" {
-		ncases, workers = 1800, 6
+		ncases, workers = 1600, 6
 	}
 	if v, err := strconv.Atoi(os.Getenv("VERIF_C08_CASES")); err == nil && v > 0 {
 		ncases = v
